@@ -154,6 +154,19 @@ theorem compile_frame : ∀ (e : Expr) (m : Mode) (F : Frame) (code : Code) (out
     have ffb := ihb .any F2 cb ob F3 hcb ffa.wf
     refine ⟨(FrameLe.of_locals_eq h1 h2).trans ((FrameLe.of_locals_eq t1 t2).trans (ffa.le.trans (ffb.le.trans
       (FrameLe.of_locals_eq rfl rfl)))), h3, ffb.wf.of_locals_eq rfl rfl, assignResult_shape ha⟩
+  | chain3 op1 op2 a b c iha ihb ihc =>
+    intro m F code out F' h hw
+    simp only [compile, bind, Option.bind_eq_some_iff, Prod.exists, pure, Option.some.injEq, Prod.mk.injEq] at h
+    obtain ⟨res, F1, ha, r0, F1', hrt, ca, oa, F2, hca, ra, _, cb, ob, F3, hcb, rb, _, cc, oc, F4, hcc, rc, _, _, rfl, rfl⟩ := h
+    obtain ⟨h1, h2, h3, _⟩ := assignResult_spec ha
+    have hw1 := hw.of_locals_eq h1 h2
+    obtain ⟨t1, t2, _⟩ := resultOrTemp_spec hrt
+    have hw1' := hw1.of_locals_eq t1 t2
+    have ffa := iha .any F1' ca oa F2 hca hw1'
+    have ffb := ihb .any F2 cb ob F3 hcb ffa.wf
+    have ffc := ihc .any F3 cc oc F4 hcc ffb.wf
+    refine ⟨(FrameLe.of_locals_eq h1 h2).trans ((FrameLe.of_locals_eq t1 t2).trans (ffa.le.trans (ffb.le.trans
+      (ffc.le.trans (FrameLe.of_locals_eq rfl rfl))))), h3, ffc.wf.of_locals_eq rfl rfl, assignResult_shape ha⟩
   | and a b iha ihb | or a b iha ihb =>
     intro m F code out F' h hw
     simp only [compile, bind, Option.bind_eq_some_iff, Prod.exists, pure, Option.some.injEq, Prod.mk.injEq] at h
